@@ -1553,5 +1553,474 @@ theorem initSess_empty {ts : List PTask} {w : World} {s0 : Sess} (h : initSess t
     · cases h
     · cases h; exact ⟨rfl, rfl, rfl, rfl, rfl, rfl⟩
 
+/-! ## The database: what a successful task records, and that nobody else touches its rows -/
+
+abbrev Key := Nat × Nat
+
+theorem lookup_insert_self (m : List (Key × Nat)) (k : Key) (v : Nat) : lookup (Engine.insert m k v) k = some v := by
+  unfold lookup Engine.insert
+  simp
+
+theorem lookup_insert_ne (m : List (Key × Nat)) (k k' : Key) (v : Nat) (h : k' ≠ k) :
+    lookup (Engine.insert m k v) k' = lookup m k' := by
+  unfold lookup Engine.insert
+  have h1 : (k == k') = false := by simpa using fun e => h e.symm
+  simp only [List.find?_cons, h1]
+  congr 1
+  induction m with
+  | nil => rfl
+  | cons x xs ih =>
+    simp only [List.filter_cons, List.find?_cons]
+    by_cases hx : (x.1 == k) = true
+    · have hxk : x.1 = k := by simpa using hx
+      have : (x.1 == k') = false := by rw [hxk]; exact h1
+      simp only [hx, Bool.not_true, Bool.false_eq_true, if_false, this]
+      exact ih
+    · simp only [hx, Bool.not_false, if_true, List.find?_cons]
+      cases hxk : (x.1 == k')
+      · exact ih
+      · rfl
+
+theorem stateOf_congr_fs (P : Project) (w w' : World) (h : w'.fs = w.fs) (v : Nat) : stateOf P w' v = stateOf P w v := by
+  unfold stateOf; rw [h]
+
+/-- `update_states_in_database` when it succeeds: one row per neighbour holding its current state; other rows untouched. -/
+theorem updateStates_spec (P : Project) (g : G) (t : Nat) : ∀ (vs : List Nat) (w : World),
+    (updateStates P g w t vs).2 = true →
+    (∀ v ∈ vs, ∃ h, stateOf P w v = some h ∧ lookup (updateStates P g w t vs).1.db (tv t, v) = some h) ∧
+    (∀ key : Key, (key.1 ≠ tv t ∨ key.2 ∉ vs) → lookup (updateStates P g w t vs).1.db key = lookup w.db key)
+  | [], w, _ => ⟨fun _ h => (by cases h), fun _ _ => rfl⟩
+  | v :: vs, w, hok => by
+    unfold updateStates at hok ⊢
+    cases hs : stateOf P w v with
+    | none => rw [hs] at hok; simp at hok
+    | some h =>
+      rw [hs] at hok
+      simp only [] at hok ⊢
+      have ih := updateStates_spec P g t vs { w with db := Engine.insert w.db (tv t, v) h } hok
+      have hst : ∀ x, stateOf P { w with db := Engine.insert w.db (tv t, v) h } x = stateOf P w x :=
+        fun x => stateOf_congr_fs P w _ rfl x
+      refine ⟨fun x hx => ?_, fun key hkey => ?_⟩
+      · by_cases hxv : x ∈ vs
+        · obtain ⟨h', e1, e2⟩ := ih.1 x hxv
+          exact ⟨h', by rw [← hst x]; exact e1, e2⟩
+        · have hxe : x = v := by
+            rcases List.mem_cons.1 hx with e | e
+            · exact e
+            · exact absurd e hxv
+          subst hxe
+          refine ⟨h, hs, ?_⟩
+          rw [ih.2 (tv t, x) (Or.inr hxv)]
+          exact lookup_insert_self _ _ _
+      · have hk2 : key.1 ≠ tv t ∨ key.2 ∉ vs := by
+          rcases hkey with e | e
+          · exact Or.inl e
+          · exact Or.inr (fun hin => e (List.mem_cons_of_mem _ hin))
+        rw [ih.2 key hk2]
+        apply lookup_insert_ne
+        intro e
+        rcases hkey with e' | e'
+        · exact e' (by rw [e])
+        · exact e' (by rw [e]; simp)
+
+/-- `TASKS_WITH_PROVISIONAL_NODES` only ever gains the task whose protocol is running. -/
+def TwpExt (t : Nat) (s s' : Sess) : Prop := ∀ u ∈ s'.twp, u ∈ s.twp ∨ u = t
+
+theorem TwpExt.refl (t : Nat) (s : Sess) : TwpExt t s s := fun _ h => Or.inl h
+theorem TwpExt.trans {t : Nat} {a b c : Sess} (h1 : TwpExt t a b) (h2 : TwpExt t b c) : TwpExt t a c := fun u hu => by
+  rcases h2 u hu with h | h
+  · exact h1 u h
+  · exact Or.inr h
+theorem TwpExt.of_eq {t : Nat} {s s' : Sess} (h : s'.twp = s.twp) : TwpExt t s s' := fun u hu => Or.inl (h ▸ hu)
+
+theorem mem_addTwp {twp : List Nat} {t u : Nat} (h : u ∈ addTwp twp t) : u ∈ twp ∨ u = t := by
+  unfold addTwp at h
+  split at h
+  · exact Or.inl h
+  · simpa using h
+
+theorem setupProvisional_twp (s : Sess) (t : Nat) : TwpExt t s (setupProvisional s t) := by
+  unfold setupProvisional
+  split
+  · exact TwpExt.refl t s
+  · simp only []
+    split <;> split <;> (try rw [TwpExt, (recreate_frame _ t).2.2.2.2.2.2.1]) <;>
+      first | exact fun u hu => mem_addTwp hu | exact TwpExt.refl t s
+
+theorem collectProducts_twp (s : Sess) (t : Nat) : TwpExt t s (collectProducts s t) := by
+  unfold collectProducts
+  split
+  · exact TwpExt.refl t s
+  · simp only []
+    split
+    · exact TwpExt.refl t s
+    · split <;> split <;> (try rw [TwpExt, (recreate_frame _ t).2.2.2.2.2.2.1]) <;>
+        first | exact fun u hu => mem_addTwp hu | exact TwpExt.refl t s
+
+theorem setupExecute_twp (s : Sess) (t : Nat) : TwpExt t s (setupExecute s t).1 := by
+  unfold setupExecute
+  split
+  · exact TwpExt.refl t s
+  · split
+    · exact TwpExt.refl t s
+    · split
+      · exact TwpExt.refl t s
+      · exact TwpExt.refl t s
+      · exact collectProducts_twp s t
+
+theorem genExecute_twp (Y : YieldFn) (s : Sess) (tk : PTask) (t : Nat) : TwpExt t s (genExecute Y s tk).1 := by
+  unfold genExecute
+  simp only []
+  split
+  · exact TwpExt.of_eq rfl
+  · split
+    · exact TwpExt.of_eq rfl
+    · exact TwpExt.of_eq (by rw [(recreate_frame _ _).2.2.2.2.2.2.1]; rfl)
+
+theorem teardown_twp (s : Sess) (t : Nat) : TwpExt t s (teardown s t).1 := by
+  unfold teardown
+  split
+  · exact TwpExt.refl t s
+  · split
+    · exact TwpExt.refl t s
+    · simp only []
+      split
+      · exact collectProducts_twp s t
+      · split <;> exact collectProducts_twp s t
+
+theorem protocol_twp (Y : YieldFn) (F : BodyFn) (s : Sess) (t : Nat) : TwpExt t s (protocol Y F s t) := by
+  unfold protocol
+  refine TwpExt.trans ?_ (TwpExt.of_eq (reportChain_frame _ t _).2.2.2.2.2.2.1)
+  unfold runPhases
+  rw [setupChain_eval]
+  by_cases hfm : (setupProvisional s t).failMarks.contains t = true
+  · simp only [hfm, if_true]; exact setupProvisional_twp s t
+  · simp only [hfm, Bool.false_eq_true, if_false]
+    have h1 := (setupProvisional_twp s t).trans (setupExecute_twp (setupProvisional s t) t)
+    generalize setupExecute (setupProvisional s t) t = r2 at h1 ⊢
+    obtain ⟨s2, ra⟩ := r2
+    cases ra with
+    | none =>
+      simp only []
+      have h2 : TwpExt t s2 (execChain Y F t Generated.executeOrder s2).1 := by
+        rw [execChain_eval]
+        split
+        · exact TwpExt.refl t s2
+        · split
+          · exact genExecute_twp Y s2 _ t
+          · exact TwpExt.of_eq rfl
+      generalize execChain Y F t Generated.executeOrder s2 = r3 at h2 ⊢
+      obtain ⟨s3, b⟩ := r3
+      cases b with
+      | true => exact h1.trans h2
+      | false => exact (h1.trans h2).trans (teardown_twp s3 t)
+    | _ => exact h1
+
+theorem loop_twp {Y : YieldFn} {F : BodyFn} : ∀ (picks : List Nat) (s s' : Sess) (h : List Nat),
+    (∀ u ∈ s.twp, u ∈ h) → loop Y F s picks = .ok s' → ∀ u ∈ s'.twp, u ∈ h ++ picks
+  | [], s, s', h, hs, hl => by
+    simp only [loop, Except.ok.injEq] at hl; subst hl; simpa using hs
+  | t :: ts, s, s', h, hs, hl => by
+    obtain ⟨_, _, _, _, h5⟩ := loop_cons hl
+    have hstep : ∀ u ∈ (stepOf Y F s t).twp, u ∈ h ++ [t] := by
+      intro u hu
+      rcases protocol_twp Y F { s with so := s.so.take [tv t] } t u hu with h1 | h1
+      · exact List.mem_append.2 (Or.inl (hs u h1))
+      · simp [h1]
+    have := loop_twp ts _ s' (h ++ [t]) hstep h5
+    simpa [List.append_assoc] using this
+
+/-- The rows of task `t` are written by `t`'s own protocol only. -/
+theorem protocol_db_other (Y : YieldFn) (F : BodyFn) (s : Sess) (t' : Nat) (tk : PTask) (hf : findTask s.tasks t' = some tk)
+    (t : Nat) (hne : t ≠ t') (v : Nat) :
+    lookup (protocol Y F s t').w.db (tv t, v) = lookup s.w.db (tv t, v) := by
+  have hdb : (runPhases Y F s t').1.w.db = s.w.db := by
+    rcases runPhases_obs Y F s t' tk hf with h | h
+    · rw [h.2.2]
+    · exact h.2.2.1
+  unfold protocol
+  rw [reportChain_eval]
+  generalize runPhases Y F s t' = r at hdb
+  obtain ⟨s1, ra⟩ := r
+  simp only [] at hdb
+  cases ra <;> simp only [addReport] <;> (try rw [hdb])
+  -- the `.none` case
+  split
+  · rw [hdb]
+  · split
+    · simp only []
+      rw [(updateStates_spec _ _ _ _ _ (by assumption)).2 (tv t, v) (Or.inl (fun e => hne (tv_inj' e))), hdb]
+    · rw [hdb]
+
+theorem loop_db_other {Y : YieldFn} {F : BodyFn} (t v : Nat) : ∀ (picks : List Nat) (s s' : Sess),
+    loop Y F s picks = .ok s' → t ∉ picks → lookup s'.w.db (tv t, v) = lookup s.w.db (tv t, v)
+  | [], s, s', h, _ => by simp only [loop, Except.ok.injEq] at h; subst h; rfl
+  | p :: ps, s, s', h, hn => by
+    obtain ⟨_, _, _, h4, h5⟩ := loop_cons h
+    have hn' : t ≠ p ∧ t ∉ ps := by simpa using hn
+    rw [loop_db_other t v ps _ s' h5 hn'.2]
+    cases hf : findTask s.tasks p with
+    | none => rw [hf] at h4; cases h4
+    | some tk => exact protocol_db_other Y F { s with so := s.so.take [tv p] } p tk hf t hn'.1 v
+
+/-! ## Tasks without directory patterns (e.g. the copy tasks a generator defines): the protocol in normal form -/
+
+/-- The session after the body of a pattern-free task ran. -/
+def afterBody (F : BodyFn) (s : Sess) (K : PTask) : Sess :=
+  { invoke s K with w := { s.w with fs := (runBody F K s.w.fs).1 } }
+
+def failReport (s : Sess) (k : Nat) : Sess := { addReport s k .fail with failMarks := s.failMarks ++ taskDesc s.g k }
+
+/-- `pytask_execute_task_protocol` for a non-generator task without pattern arguments that is not registered in
+`TASKS_WITH_PROVISIONAL_NODES`: nothing is resolved, the DAG is not re-created. -/
+theorem protocol_plain (Y : YieldFn) (F : BodyFn) (s : Sess) (k : Nat) (K : PTask) (hf : findTask s.tasks k = some K)
+    (hng : K.gen = false) (hpd : K.pdeps = []) (hpp : K.pprods = []) (htw : k ∉ s.twp) :
+    protocol Y F s k =
+      (if k ∈ s.failMarks then addReport s k .skipPrevFailed
+       else match scanP (toProject s.tasks) s.g s.w (provNodes s.tasks) k false (neighbours s.g k) with
+        | .missing => failReport s k
+        | .unchanged => addReport s k .skipUnchanged
+        | .changed =>
+          if (runBody F K s.w.fs).2 = true ∨ K.allProds.any (fun p => (lookup (afterBody F s K).w.fs p).isNone) = true
+          then failReport (afterBody F s K) k
+          else
+            let u := updateStates (toProject s.tasks) s.g (afterBody F s K).w k (neighbours s.g k)
+            if u.2 then addReport { afterBody F s K with w := u.1 } k .success else { afterBody F s K with crashed := true }) := by
+  have hsp : setupProvisional s k = s := by
+    unfold setupProvisional
+    rw [hf]
+    simp [hpd, unresolved, htw]
+  have hcp : ∀ s' : Sess, findTask s'.tasks k = some K → s'.twp = s.twp → collectProducts s' k = s' := by
+    intro s' hf' htw'
+    unfold collectProducts
+    rw [hf']
+    have : k ∉ s'.twp := by rw [htw']; exact htw
+    simp [hpp, unresolved, this, hng]
+  have hisgen : ∀ s' : Sess, findTask s'.tasks k = some K → isGen s'.tasks k = false := by
+    intro s' hf'; unfold isGen; rw [hf']; exact hng
+  unfold protocol runPhases
+  rw [setupChain_eval, hsp]
+  by_cases hfm : k ∈ s.failMarks
+  · have : s.failMarks.contains k = true := by simpa using hfm
+    simp only [this, if_true, hfm]
+    rw [reportChain_eval]
+  · have : s.failMarks.contains k = false := by simpa using hfm
+    simp only [this, Bool.false_eq_true, if_false, hfm]
+    unfold setupExecute
+    rw [hf]
+    simp only [hng, Bool.false_eq_true, if_false]
+    cases hsc : scanP (toProject s.tasks) s.g s.w (provNodes s.tasks) k false (neighbours s.g k) with
+    | missing => simp only []; rw [reportChain_eval]; rfl
+    | unchanged => simp only []; rw [hcp s hf rfl, reportChain_eval]
+    | changed =>
+      simp only []
+      rw [execChain_eval, hf]
+      simp only [hng, Bool.false_eq_true, if_false]
+      have hab : ({ invoke s K with w := { s.w with fs := (runBody F K s.w.fs).1 } } : Sess) = afterBody F s K := rfl
+      rw [hab]
+      cases hb : (runBody F K s.w.fs).2 with
+      | true =>
+        simp only [true_or, if_true]
+        rw [reportChain_eval]; rfl
+      | false =>
+        simp only [Bool.false_eq_true, false_or]
+        have hf2 : findTask (afterBody F s K).tasks k = some K := hf
+        unfold teardown
+        rw [hf2]
+        simp only [hng, Bool.false_eq_true, if_false]
+        rw [hcp (afterBody F s K) hf2 rfl, hf2]
+        simp only []
+        by_cases hmiss : K.allProds.any (fun p => (lookup (afterBody F s K).w.fs p).isNone) = true
+        · simp only [hmiss, if_true]
+          rw [reportChain_eval]; rfl
+        · simp only [hmiss, Bool.false_eq_true, if_false]
+          rw [reportChain_eval]
+          simp only [hisgen _ hf2, Bool.false_eq_true, if_false]
+          rfl
+
+/-- The recorded state of vertex `v` for task `t` equals its current state. -/
+def RowOK (P : Project) (w : World) (t v : Nat) : Prop := ∃ h, stateOf P w v = some h ∧ lookup w.db (tv t, v) = some h
+
+theorem scanP_unchanged_of_rows (P : Project) (g : G) (w : World) (pn : List Nat) (t : Nat) :
+    ∀ vs, (∀ v ∈ vs, RowOK P w t v) → scanP P g w pn t false vs = Scan.unchanged
+  | [], _ => by simp [scanP]
+  | v :: vs, h => by
+    have ih := scanP_unchanged_of_rows P g w pn t vs (fun u hu => h u (List.mem_cons_of_mem _ hu))
+    obtain ⟨hh, h1, h2⟩ := h v (by simp)
+    unfold scanP
+    simp only [Bool.false_and, Bool.false_eq_true, if_false]
+    split
+    · exact ih
+    · have hc : hasChanged w t v (some hh) = false := by
+        unfold hasChanged; simp only [h2]; simp
+      simp only [h1, Option.isNone_some, Bool.and_false, Bool.false_eq_true, if_false, hc]
+      exact ih
+
+/-- Every declared dependency, the module and every declared product of `K` exist and have their current content recorded
+for `K` in the database. -/
+def Recorded (w : World) (K : PTask) : Prop :=
+  (∀ d ∈ K.allDeps, ∃ h, lookup w.fs d = some h ∧ lookup w.db (tv K.id, nv d) = some h) ∧
+  (∃ h, lookup w.fs K.src = some h ∧ lookup w.db (tv K.id, tv K.id) = some h) ∧
+  (∀ p ∈ K.allProds, ∃ h, lookup w.fs p = some h ∧ lookup w.db (tv K.id, nv p) = some h)
+
+theorem neighbours_rows {s : Sess} {m : List Nat} (hdag : createDag (toProject s.tasks) {} = .ok (s.g, m)) (k : Nat) (K : PTask)
+    (hf : findTask s.tasks k = some K) (huniq : ∀ u ∈ s.tasks, u.id = k → u = K) (hafter : K.after = [])
+    (w : World) (hrec : Recorded w K) : ∀ v ∈ neighbours s.g k, RowOK (toProject s.tasks) w k v := by
+  have hid : K.id = k := findTask_id hf
+  intro v hv
+  unfold neighbours at hv
+  simp only [List.mem_append, List.mem_singleton] at hv
+  rcases hv with (hv | rfl) | hv
+  · rcases (createDag_neighbours_conv hdag k).1 v hv with ⟨u, hu, huid, d, hd, rfl⟩ | ⟨u, hu, huid, ha⟩
+    · rw [huniq u hu huid] at hd
+      obtain ⟨h, e1, e2⟩ := hrec.1 d hd
+      exact ⟨h, by rw [stateOf_nv]; exact e1, by rw [← hid]; exact e2⟩
+    · rw [huniq u hu huid] at ha; exact absurd hafter ha
+  · obtain ⟨h, e1, e2⟩ := hrec.2.1
+    exact ⟨h, by rw [stateOf_tv _ hf]; exact e1, by rw [← hid]; exact e2⟩
+  · obtain ⟨u, hu, huid, p, hp, rfl⟩ := (createDag_neighbours_conv hdag k).2 v hv
+    rw [huniq u hu huid] at hp
+    obtain ⟨h, e1, e2⟩ := hrec.2.2 p hp
+    exact ⟨h, by rw [stateOf_nv]; exact e1, by rw [← hid]; exact e2⟩
+
+theorem list_ne_append_singleton {α} (l : List α) (a : α) : l ≠ l ++ [a] := by
+  intro h
+  have := congrArg List.length h
+  simp at this
+
+/-- **unchanged ⇒ skipped** for a pattern-free task: with everything recorded, the protocol only appends `SKIP_UNCHANGED`. -/
+theorem plain_skip (Y : YieldFn) (F : BodyFn) (s : Sess) (k : Nat) (K : PTask) (m : List Nat)
+    (hdag : createDag (toProject s.tasks) {} = .ok (s.g, m)) (hf : findTask s.tasks k = some K)
+    (hng : K.gen = false) (hpd : K.pdeps = []) (hpp : K.pprods = []) (htw : k ∉ s.twp) (hfm : k ∉ s.failMarks)
+    (huniq : ∀ u ∈ s.tasks, u.id = k → u = K) (hafter : K.after = []) (hrec : Recorded s.w K) :
+    protocol Y F s k = addReport s k .skipUnchanged := by
+  rw [protocol_plain Y F s k K hf hng hpd hpp htw]
+  simp only [hfm, if_false]
+  rw [scanP_unchanged_of_rows _ _ _ _ _ _ (neighbours_rows hdag k K hf huniq hafter s.w hrec)]
+
+/-- **success ⇒ recorded**: if the body of a pattern-free task ran, the task did not fail and nothing crashed, then all
+its dependencies, its module and its products exist and are recorded with their current contents. -/
+theorem plain_records (Y : YieldFn) (F : BodyFn) (s : Sess) (k : Nat) (K : PTask) (m : List Nat)
+    (hdag : createDag (toProject s.tasks) {} = .ok (s.g, m)) (hf : findTask s.tasks k = some K)
+    (hng : K.gen = false) (hpd : K.pdeps = []) (hpp : K.pprods = []) (htw : k ∉ s.twp)
+    (hlog : (protocol Y F s k).log = s.log ++ [k]) (hnf : (k, Outcome.fail) ∉ (protocol Y F s k).reports)
+    (hcr : (protocol Y F s k).crashed = false) : Recorded (protocol Y F s k).w K := by
+  have hid : K.id = k := findTask_id hf
+  rw [protocol_plain Y F s k K hf hng hpd hpp htw] at hlog hnf hcr ⊢
+  by_cases hfm : k ∈ s.failMarks
+  · simp only [hfm, if_true, addReport] at hlog
+    exact absurd hlog (list_ne_append_singleton _ _)
+  · simp only [hfm, if_false] at hlog hnf hcr ⊢
+    cases hsc : scanP (toProject s.tasks) s.g s.w (provNodes s.tasks) k false (neighbours s.g k) with
+    | missing => rw [hsc] at hlog; simp only [failReport, addReport] at hlog; exact absurd hlog (list_ne_append_singleton _ _)
+    | unchanged => rw [hsc] at hlog; simp only [addReport] at hlog; exact absurd hlog (list_ne_append_singleton _ _)
+    | changed =>
+      rw [hsc] at hnf hcr
+      simp only [] at hnf hcr ⊢
+      split at hnf
+      · exfalso; apply hnf; simp [failReport, addReport]
+      · rename_i hgood
+        rw [if_neg hgood] at hcr ⊢
+        cases hu : (updateStates (toProject s.tasks) s.g (afterBody F s K).w k (neighbours s.g k)).2 with
+        | false => rw [hu] at hcr; simp at hcr
+        | true =>
+          simp only [if_true, addReport]
+          have hspec := updateStates_spec (toProject s.tasks) s.g k (neighbours s.g k) (afterBody F s K).w hu
+          have hfs := updateStates_fs (toProject s.tasks) s.g k (neighbours s.g k) (afterBody F s K).w
+          have hKin := findTask_mem hf
+          have hcs := createDag_spec hdag K hKin
+          rw [hid] at hcs
+          refine ⟨fun d hd => ?_, ?_, fun p hp => ?_⟩
+          · have hv : nv d ∈ neighbours s.g k := by
+              unfold neighbours; simp [mem_preds.2 (hcs.2.1 d hd)]
+            obtain ⟨h, e1, e2⟩ := hspec.1 _ hv
+            rw [stateOf_nv] at e1
+            exact ⟨h, by rw [hfs]; exact e1, by rw [hid]; exact e2⟩
+          · have hv : tv k ∈ neighbours s.g k := by unfold neighbours; simp
+            obtain ⟨h, e1, e2⟩ := hspec.1 _ hv
+            rw [stateOf_tv _ hf] at e1
+            exact ⟨h, by rw [hfs]; exact e1, by rw [hid]; exact e2⟩
+          · have hv : nv p ∈ neighbours s.g k := by
+              unfold neighbours; simp [mem_succs.2 (hcs.2.2 p hp)]
+            obtain ⟨h, e1, e2⟩ := hspec.1 _ hv
+            rw [stateOf_nv] at e1
+            exact ⟨h, by rw [hfs]; exact e1, by rw [hid]; exact e2⟩
+
+/-- **changed ⇒ executed** for a pattern-free task: a declared dependency whose recorded state is absent or differs, and
+nothing missing. -/
+theorem plain_runs (Y : YieldFn) (F : BodyFn) (s : Sess) (k : Nat) (K : PTask) (m : List Nat)
+    (hdag : createDag (toProject s.tasks) {} = .ok (s.g, m)) (hf : findTask s.tasks k = some K)
+    (hng : K.gen = false) (hpd : K.pdeps = []) (hpp : K.pprods = []) (htw : k ∉ s.twp) (hfm : k ∉ s.failMarks)
+    (huniq : ∀ u ∈ s.tasks, u.id = k → u = K) (hafter : K.after = [])
+    (d : Nat) (hd : d ∈ K.allDeps) (hch : hasChanged s.w k (nv d) (lookup s.w.fs d) = true)
+    (hex : ∀ x ∈ K.allDeps, (lookup s.w.fs x).isSome = true) (hsrc : (lookup s.w.fs K.src).isSome = true) :
+    (protocol Y F s k).log = s.log ++ [k] := by
+  have hid : K.id = k := findTask_id hf
+  have hcs := createDag_spec hdag K (findTask_mem hf)
+  rw [hid] at hcs
+  have hpred : nv d ∈ s.g.preds (tv k) := mem_preds.2 (hcs.2.1 d hd)
+  have hne1 := scanP_changed (toProject s.tasks) s.g s.w (provNodes s.tasks) k (nv d) hpred
+    (by rw [stateOf_nv]; exact hch) (neighbours s.g k) false (by unfold neighbours; simp [hpred])
+  have hne2 := scanP_not_missing (toProject s.tasks) s.g s.w (provNodes s.tasks) k (neighbours s.g k) false (by
+    intro v _ hv
+    simp only [Bool.or_eq_true, List.contains_iff_mem, beq_iff_eq] at hv
+    rcases hv with hv | rfl
+    · rcases (createDag_neighbours_conv hdag k).1 v hv with ⟨u, hu, huid, x, hx, rfl⟩ | ⟨u, hu, huid, ha⟩
+      · rw [huniq u hu huid] at hx
+        rw [stateOf_nv]; exact hex x hx
+      · rw [huniq u hu huid] at ha; exact absurd hafter ha
+    · rw [stateOf_tv _ hf]; exact hsrc)
+  rw [protocol_plain Y F s k K hf hng hpd hpp htw]
+  simp only [hfm, if_false, scan_cases _ hne1 hne2]
+  split
+  · simp [failReport, addReport, afterBody, invoke, hid]
+  · split <;> simp [addReport, afterBody, invoke, hid]
+
+/-- Generators are executed in every build (by design: their states are never recorded, `needs_to_be_executed = … or
+is_task_generator(task)`): unless skipped because an ancestor failed, the generator function is called. -/
+theorem protocol_gen_log (Y : YieldFn) (F : BodyFn) (s : Sess) (g : Nat) (G : PTask) (hf : findTask s.tasks g = some G)
+    (hgen : G.gen = true) (hfm : g ∉ s.failMarks) : (protocol Y F s g).log = s.log ++ [g] := by
+  have hsp := setupProvisional_spec s g G hf
+  have hgen1 : (resolvedDeps s.w.fs G).gen = true := by unfold resolvedDeps; split <;> exact hgen
+  have hid : (resolvedDeps s.w.fs G).id = g := findTask_id hsp.2
+  generalize resolvedDeps s.w.fs G = G1 at hsp hgen1 hid
+  unfold protocol
+  rw [(reportChain_frame _ g _).2.2.2.2.1]
+  unfold runPhases
+  rw [setupChain_eval]
+  have hfm' : (setupProvisional s g).failMarks.contains g = false := by
+    rw [hsp.1.2.2.2.1]; simpa using hfm
+  simp only [hfm', Bool.false_eq_true, if_false]
+  have hse : setupExecute (setupProvisional s g) g = (setupProvisional s g, Raised.none) := by
+    unfold setupExecute; rw [hsp.2]; simp [hgen1]
+  rw [hse]
+  simp only []
+  rw [execChain_eval, hsp.2]
+  simp only [hgen1, if_true]
+  have hge := genExecute_obs Y (setupProvisional s g) G1
+  generalize genExecute Y (setupProvisional s g) G1 = r3 at hge ⊢
+  obtain ⟨s3, b⟩ := r3
+  cases b with
+  | true => simp only [] at hge ⊢; rw [hge.2.1, hid, hsp.1.2.1]
+  | false =>
+    simp only [] at hge ⊢
+    rw [(teardown_sameObs s3 g).2.1, hge.2.1, hid, hsp.1.2.1]
+
+/-- A task the loop hands out has not been handed out before. -/
+theorem pick_fresh {ts0 : List PTask} {s : Sess} {h : List Nat} {t : Nat} (hi : LInv ts0 s h) (hstop : s.stop = false)
+    (hl : LegalBatch s.so 1 [tv t]) : t ∉ h := by
+  intro hc
+  obtain ⟨f, _, hr⟩ := (hi.good hstop).reach
+  have hav := mem_avail.1 (hl.2.1 (tv t) (by simp))
+  exact (reach_inv hr).disj (tv t) hav.1 (by rw [hi.done]; exact List.mem_map.2 ⟨t, hc, rfl⟩)
+
+theorem initSess_twp {ts : List PTask} {w : World} {s0 : Sess} (h : initSess ts w = some s0) : s0.twp = [] := by
+  unfold initSess at h
+  split at h
+  · cases h
+  · split at h
+    · cases h
+    · cases h; rfl
+
 end Prov
 end Pytask
